@@ -31,6 +31,10 @@ try:
     rc0, out0 = sh(democmd, cwd=wt)
     meta["demo_without_change_rc"] = rc0
     rc, out = sh("git apply %s" % os.path.join(src, "patch.diff"), cwd=wt)
+    if rc != 0:
+        # the tree has moved on (repairs): fall back to a three-way merge of the patch
+        rc, out = sh("git apply --3way %s && git reset -q" % os.path.join(src, "patch.diff"), cwd=wt)
+        meta["patch_applied_3way"] = rc == 0
     meta["patch_applies"] = rc == 0
     if rc != 0:
         meta["error"] = out[-500:]
